@@ -59,7 +59,7 @@ CLAIMED["C01"] = dict(
         "the real StorageClient incl. restarts, with replies AND directory contents compared (120 histories x ~60 ops per quick run), and a separate "
         "python reference-map oracle judges the implementation. Two genuine defects found this way were repaired by fix: commits (F13 empty-value "
         "compress panic, F16 check_vhash delete of a zero-hash value).",
-   note="PARTIAL w.r.t. the property text: restarts/GC inside a history are covered by correspondence and by C02/C03, not by this theorem; multi-get "
+   note="PARTIAL w.r.t. the property text: restarts and GC passes inside a history are covered by C03_histories_with_gc_and_restarts (all histories mixing client operations, restarts and passes; check_vhash off), not by this theorem; multi-get "
         "and the text protocol are covered in C11. Assumes no key-hash collision inside the key set (C13) and versions inside int32. Compressor and "
         "sniffing are oracles supplied by the harness. Trusted: Coq kernel, translator, harness (SecsBeforeDump=-1, async flush awaited). No axioms.",
    technique="Rocq refinement proof (simulation invariant over all histories) of an executable bucket model to a reference map; model tied to code by differential trace replay",
@@ -245,12 +245,15 @@ CLAIMED["C03"] = dict(
         "per quick run (half of them a dense profile that fills and switches destinations), range resolved by the real range check, merge on/off, "
         "repeated passes, restarts with index files removed afterwards, replies + GC statistics + directory contents compared with the model; "
         "python reference-map oracle.",
-   note="PARTIAL: a RESTART after a pass and colliding keys are covered by correspondence + oracle "
-        "only (C03_any_number_of_passes re-establishes the GC precondition, so passes may follow one another, but not the restart invariant "
-        "of C02 after a pass); the precondition 'no record past DataFileMax' is an "
-        "assumption on the configuration history. Trusted: Coq kernel, translator (flags gc_repoint_conditional, gc_truncates_after_inplace), "
-        "harness, python oracle. No axioms.",
-   technique="Rocq loop-invariant proof that a GC pass preserves the refinement relation (all states, all ranges); differential correspondence on GC histories incl. directory contents",
+   note="The restart clause is now a theorem: C03_gc_reestablishes_restart_invariant -- a pass re-establishes the whole restart invariant of "
+        "C02 (per-file layout, hint coverage of every file, tree = replay of the record log read positionally) plus NL / NZ / FMok, so C02_restart "
+        "applies after any number of passes; C03_histories_with_gc_and_restarts -- ALL histories mixing client operations, clean restarts (any "
+        "index files removed) and GC passes (any range, either merge flag) at ANY positions answer as the reference map (proofs/GcX1..GcX6.v, "
+        "about 1900 lines). PARTIAL: colliding keys and check_vhash=on are covered by correspondence + oracle only; each GC request must meet a "
+        "state with its range below the head file, no record past DataFileMax and at least one hint file written since creation (side "
+        "condition [ready], state-dependent like the range itself; a computable version is used for the non-vacuity example). Trusted: Coq "
+        "kernel, translator (flags gc_repoint_conditional, gc_truncates_after_inplace), harness, python oracle. No axioms.",
+   technique="Rocq loop-invariant proofs: a GC pass preserves the refinement relation AND re-establishes the restart invariant (all states, ranges, merge flags); history theorem over client operations, restarts and passes; differential correspondence on GC histories incl. directory contents",
    design="6/C03")
 CLAIMED["C06"] = dict(
    text="Theorems (coq/props/C06.v), crash model = SIGKILL keeps completed writes and loses memory; in the bucket model the directory left by a kill "
